@@ -241,8 +241,40 @@ class Emitter:
         self.map[len(self.lines)] = {"file": file, "line": line, "origin": origin}
 
 
+def requires_text(chunks, n_sig_pos):
+    """text of the `requires` clause among the annotation chunks that sit before the body"""
+    txt = " ".join(text for p, kind, text in chunks if kind == "annot" and p <= n_sig_pos)
+    txt = re.sub(r"//.*?(?=\s(?:requires|ensures)\b|$)", "", txt) if False else txt
+    m = re.search(r"\brequires\b(.*?)(?=\bensures\b|\bdecreases\b|$)", txt, re.S)
+    return m.group(1).strip().rstrip(",") if m else None
+
+
+def vacuity_fn(key, sig_toks, extra_params, req, self_type):
+    """`fn reach_<key>(params) requires <req> { assert(false); }` with self replaced by a plain parameter"""
+    i = next(i for i, t in enumerate(sig_toks) if t.text == "(")
+    c = match_close(sig_toks, i)
+    generics = ""
+    if sig_toks[i - 1].text == ">":
+        g = i - 1
+        depth = 0
+        while True:
+            if sig_toks[g].text == ">": depth += 1
+            elif sig_toks[g].text == "<": depth -= 1
+            if depth == 0: break
+            g -= 1
+        generics = join(sig_toks[g:i])
+    params = join(sig_toks[i + 1:c])
+    params = re.sub(r"&\s*mut\s+self\b", "t_: &mut " + self_type, params)
+    params = re.sub(r"&\s*self\b", "t_: &" + self_type, params)
+    params = re.sub(r"\bmut\s+(\w+\s*:)", r"\1", params)
+    if extra_params: params = (params + ", " if params.strip() else "") + ", ".join(extra_params)
+    req = re.sub(r"\bself\b", "t_", req)
+    return "    fn reach_%s%s(%s)\n        requires %s\n    { assert(false); }" % (key, generics, params, req)
+
+
 def emit_fn(em, key, unit_fn, repo_toks, tpl_lines, relfile, report):
     tpl_toks, chunks = split_fn_template(tpl_lines)
+    first_emitted = len(em.lines) + 1
     T, R = texts(tpl_toks), texts(repo_toks)
     pos, changed = align(T, R)
     ren = consistent_rename(T, R, changed) if changed else {}
@@ -320,11 +352,19 @@ def emit_fn(em, key, unit_fn, repo_toks, tpl_lines, relfile, report):
     flush()
     if len(toks) in by_pos:
         for kind, text in by_pos[len(toks)]: annot(text)
+    report["functions"][key]["emitted_lines"] = [first_emitted, len(em.lines)]
+    tpl_body_open = next((i for i, t in enumerate(tpl_toks) if t.text == "{"), 0)
+    req = requires_text(chunks, tpl_body_open)
+    if req:
+        # strip trailing line comments inside the clause
+        req = re.sub(r"//[^\n]*", "", req)
+        report["functions"][key]["requires"] = req
+        report.setdefault("_vacuity", []).append(vacuity_fn(key, toks[:body_open], params, req, report["self_type"]))
 
 
 def build(unit, repo_root, out_path, subst):
     """emit the Verus file for `unit` (dict, see units.py) with type substitution `subst`"""
-    report = {"unit": unit["name"], "rules_applied": [], "functions": {}, "structs": {}}
+    report = {"unit": unit["name"], "rules_applied": [], "functions": {}, "structs": {}, "self_type": unit.get("self_type", "Self")}
     src_cache = {}
 
     def repo_tokens(rel):
@@ -351,7 +391,14 @@ def build(unit, repo_root, out_path, subst):
     seen = set()
     for seg in parse_template(unit["template"], subst):
         if seg[0] == "text":
-            em.text("\n".join(seg[1]))
+            for ln in seg[1]:
+                if re.match(r"^\s*//@@vacuity\s*$", ln):
+                    em.text("// ---- vacuity guards (generated): each assert(false) MUST FAIL, i.e. every `requires` is satisfiable")
+                    em.text("mod vacuity { use super::*;")
+                    for v in report.get("_vacuity", []): em.text(v)
+                    em.text("}")
+                else:
+                    em.text(ln)
         else:
             key = seg[1]
             if key not in extracted: raise ExtractError("template refers to unknown function %s" % key)
@@ -363,6 +410,7 @@ def build(unit, repo_root, out_path, subst):
     missing = set(extracted) - seen
     if missing: raise ExtractError("template has no //@@fn block for %s" % sorted(missing))
     with open(out_path, "w") as f: f.write("\n".join(em.lines) + "\n")
+    report["vacuity_fns"] = len(report.pop("_vacuity", []))
     report["line_map"] = em.map
     report["emitted_lines"] = len(em.lines)
     return report
